@@ -180,10 +180,18 @@ impl SourceView {
             }
         }
 
+        #[cfg(sourcemap_verif)]
+        crate::verif_hooks::yield_point(1);
+
         // fetched everything
         if self.processed_until.load(Ordering::Relaxed) > self.source.len() {
             return None;
         }
+
+        #[cfg(sourcemap_verif)]
+        crate::verif_hooks::yield_point(2);
+        #[cfg(sourcemap_verif)]
+        crate::verif_hooks::yield_point(3);
 
         let mut lines = self.lines.lock().unwrap();
         let mut done = false;
